@@ -34,6 +34,8 @@ type World struct {
 	famIDs map[string]int
 	// AfterOp is called (world lock held) after every event-emitting operation; n = operations so far
 	AfterOp func(n int, ev string)
+	// AfterUnlocked is called after every operation WITHOUT the world lock (also when Silent / Quiet)
+	AfterUnlocked func(ev string, f trace.F)
 	// AfterOpF: the same with the fields of the event (also when Silent)
 	AfterOpF func(n int, ev string, f trace.F)
 	nops    int
@@ -95,7 +97,13 @@ func (w *World) Drop() {
 
 func (w *World) emit(ev string, f trace.F) {
 	w.mu.Lock()
-	defer w.mu.Unlock()
+	defer func() {
+		w.mu.Unlock()
+		// hooks that run real code (which may come back into the seams) are called without the world lock
+		if fn := w.AfterUnlocked; fn != nil {
+			fn(ev, f)
+		}
+	}()
 	if w.Quiet {
 		return
 	}
